@@ -415,4 +415,357 @@ Proof.
   - intros j i (f & Hf & _). assert (j < length M)%nat by (apply nth_error_Some; congruence). lia.
   - destruct (add_chunk Q c); [|exact I]. destruct (pop_messages l seq) as [[Q2 seq2] ms]. apply IH.
 Qed.
+
+(* ======================================================================================
+   Ordered streams of partially reliable channels: FORWARD-TSN may move the expected sequence
+   number past messages whose fragments are still queued ("stale" messages).  pop_messages in
+   that situation: stale complete messages at the head of the queue come out first, in queue
+   order, then the in-order ones. *)
+Definition labg (b : nat) (U : Z) (c : chunk) : Prop :=
+  exists j i, at_ j i c /\ (b <= j)%nat /\ Z.of_nat j < U.
+(* b: every queued chunk belongs to message b or later; k: delivery point; U: beyond every queued message *)
+Definition near (b k : nat) (U : Z) : Prop :=
+  (b <= k)%nat /\ Z.of_nat k - Z.of_nat b < 32768 /\ Z.of_nat k <= U <= Z.of_nat k + 32768.
+
+Lemma ssn_gt2 k j : - 32768 < Z.of_nat j - Z.of_nat k < 32768 -> uint16_gt (ssn j) (ssn k) = true <-> (k < j)%nat.
+Proof. unfold ssn, uint16_gt. intros H. lia. Qed.
+Lemma ssn_eq2 k j : - 32768 < Z.of_nat j - Z.of_nat k < 32768 -> (ssn j =? ssn k) = true <-> j = k.
+Proof. unfold ssn. intros H. lia. Qed.
+
+Definition msgs_of (J : list nat) : list message := map (fun j => msgf (nth j M [])) J.
+Fixpoint incr_from (b : nat) (J : list nat) : Prop :=
+  match J with [] => True | j :: J' => (b <= j)%nat /\ incr_from (S j) J' end.
+
+Lemma incr_from_weaken b b' J : (b' <= b)%nat -> incr_from b J -> incr_from b' J.
+Proof. destruct J as [|j J]; cbn; [auto|]. intros H [H1 H2]. split; [lia|exact H2]. Qed.
+
+Definition runinvg (b k : nat) (run : run_state) (rest : list chunk) : Prop :=
+  match run with
+  | None => True
+  | Some (r, e, ord) =>
+      ord = true /\ (b <= k)%nat /\ exists f i p, nth_error M b = Some f /\ (0 < i < length f)%nat /\ r = rev (firstn i f) /\
+        nth_error f (i - 1) = Some p /\ e = tsn_plus_one (tsn p) /\ Forall (fun x => offc p < offc x) rest
+  end.
+
+Lemma labg_weaken b b' U c : (b' <= b)%nat -> labg b U c -> labg b' U c.
+Proof. intros Hb (j & i & A & H1 & H2). exists j, i. split; [exact A|]. split; [lia|exact H2]. Qed.
+
+Lemma frags_prefix_g b U f i : nth_error M b = Some f -> Z.of_nat b < U -> Forall (labg b U) (firstn i f).
+Proof.
+  intros Hf Hk. destruct (frags_prefix b f i Hf) as [_ Hel]. apply Forall_forall. intros x Hx.
+  destruct (Hel x Hx) as (a & _ & Ha & _). exists b, a. split; [exists f; auto|]. split; [lia|exact Hk].
+Qed.
+
+Lemma rest_after_g b U f i c x : nth_error M b = Some f -> nth_error f i = Some c -> S i = length f ->
+  labg b U x -> offc c < offc x -> labg (S b) U x.
+Proof.
+  intros Hf Hc Hlast (j & i' & A & H1 & H2) Hlt. exists j, i'. split; [exact A|]. split; [|exact H2].
+  destruct (Nat.eq_dec j b) as [->|Hne]; [|lia].
+  exfalso. destruct A as (f' & Hf' & Hx). rewrite Hf in Hf'. injection Hf' as <-.
+  pose proof (ok_off _ _ _ _ (proj2 (proj2 (wfM b f Hf)) i c Hc)). pose proof (ok_off _ _ _ _ (proj2 (proj2 (wfM b f Hf)) i' x Hx)).
+  assert (i' < length f)%nat by (apply nth_error_Some; congruence). lia.
+Qed.
+
+Lemma pop_gen U : forall rest run b k l s ms, near b k U -> sorted rest -> Forall (labg b U) rest -> runinvg b k run rest ->
+  (match run with Some _ => Z.of_nat b < U | None => True end) ->
+  pop_loop [] run rest (ssn k) = (l, s, ms) ->
+  exists J b' k', ms = msgs_of J /\ incr_from b J /\ Forall (fun j => (j < b')%nat /\ (j < k')%nat) J /\ s = ssn k' /\
+    (k <= k')%nat /\ (b <= b')%nat /\ sorted l /\ Forall (labg b' U) l /\ (k' = k \/ (k' <= b')%nat) /\
+    Z.of_nat k' - Z.of_nat b' < 32768 /\ Z.of_nat k' <= U.
+Proof.
+  assert (Zero : forall b k l, near b k U -> sorted l -> Forall (labg b U) l ->
+    exists J b' k', @nil message = msgs_of J /\ incr_from b J /\ Forall (fun j => (j < b')%nat /\ (j < k')%nat) J /\ ssn k = ssn k' /\
+      (k <= k')%nat /\ (b <= b')%nat /\ sorted l /\ Forall (labg b' U) l /\ (k' = k \/ (k' <= b')%nat) /\
+      Z.of_nat k' - Z.of_nat b' < 32768 /\ Z.of_nat k' <= U).
+  { intros b k l (N1 & N2 & N3) S L. exists [], b, k. cbn. repeat split; auto; lia. }
+  induction rest as [|c rest IH]; intros run b k l s ms Hn Sr Lr R HbU H.
+  - cbn [pop_loop] in H. injection H as <- <- <-. apply Zero; [exact Hn| |].
+    + unfold retained. cbn [rev app]. destruct run as [[[r e] ord]|]; [|exact I].
+      destruct R as (_ & _ & f & i & p & Hf & Hi & -> & _). rewrite rev_involutive, !app_nil_r.
+      exact (proj1 (proj1 (frags_prefix b f i Hf))).
+    + unfold retained. cbn [rev app]. destruct run as [[[r e] ord]|]; [|constructor].
+      destruct R as (_ & Hbk & f & i & p & Hf & Hi & -> & _). rewrite rev_involutive, !app_nil_r. now apply frags_prefix_g.
+  - destruct Sr as [Fc Srest]. inversion Lr as [|? ? Lc Lrest]; subst.
+    assert (Hin : forall j f i r e, (b <= j)%nat -> (j <= k)%nat -> Z.of_nat j < U -> nth_error M j = Some f -> nth_error f i = Some c ->
+      r = rev (firstn i f) ->
+      (if last c
+       then let '(l0, s1, ms0) := pop_loop [] None rest (if true && (sseq c =? ssn k) then uint16_add (ssn k) 1 else ssn k) in
+            (l0, s1, (sid c, ppid c, join_data (rev (c :: r))) :: ms0)
+       else pop_loop [] (Some (c :: r, tsn_plus_one e, true)) rest (ssn k)) = (l, s, ms) ->
+      e = tsn c ->
+      exists J b' k', ms = msgs_of J /\ incr_from b J /\ Forall (fun j0 => (j0 < b')%nat /\ (j0 < k')%nat) J /\ s = ssn k' /\
+        (k <= k')%nat /\ (b <= b')%nat /\ sorted l /\ Forall (labg b' U) l /\ (k' = k \/ (k' <= b')%nat) /\
+        Z.of_nat k' - Z.of_nat b' < 32768 /\ Z.of_nat k' <= U).
+    { intros j f i r e Hbj Hjk HjU Hf Hc -> Heq ->.
+      pose proof (proj2 (proj2 (wfM j f Hf)) i c Hc) as K.
+      assert (Hil : (i < length f)%nat) by (apply nth_error_Some; congruence).
+      assert (EfS : firstn (S i) f = firstn i f ++ [c]) by now apply firstn_S_nth.
+      assert (Hnj : near j k U) by (destruct Hn as (A1 & A2 & A3); split; [lia|split; [lia|exact A3]]).
+      assert (Lrest_j : Forall (labg j U) rest).
+      { apply Forall_forall. intros x Hx. rewrite Forall_forall in Lrest, Fc. destruct (Lrest x Hx) as (jx & ix & Ax & H1 & H2).
+        exists jx, ix. split; [exact Ax|]. split; [|exact H2].
+        destruct (le_lt_dec j jx) as [Hok|Hlt]; [exact Hok|]. exfalso.
+        pose proof (at_lt _ _ _ _ _ _ Ax (ex_intro _ f (conj Hf Hc)) Hlt). pose proof (Fc x Hx). lia. }
+      rewrite (ok_last _ _ _ _ K), (ok_sseq _ _ _ _ K) in Heq. cbn [andb] in Heq.
+      destruct (Nat.eqb_spec (S i) (length f)) as [El|El].
+      - set (k2 := if Nat.eqb j k then S k else k).
+        assert (Eseq : (if ssn j =? ssn k then uint16_add (ssn k) 1 else ssn k) = ssn k2).
+        { unfold k2. destruct (Nat.eqb_spec j k) as [->|Hne].
+          - rewrite Z.eqb_refl. apply ssn_succ.
+          - destruct (ssn j =? ssn k) eqn:E; [|reflexivity]. exfalso. apply Hne. apply (ssn_eq2 k j); [destruct Hnj as (A1 & A2 & A3); lia|exact E]. }
+        rewrite Eseq in Heq.
+        destruct (pop_loop [] None rest (ssn k2)) as [[l0 s1] ms0] eqn:E. injection Heq as <- <- <-.
+        assert (Hn2 : near (S j) k2 U).
+        { unfold k2. destruct Hnj as (A1 & A2 & A3). destruct (Nat.eqb_spec j k); (split; [lia|split; lia]). }
+        assert (L2 : Forall (labg (S j) U) rest).
+        { apply Forall_forall. intros x Hx. rewrite Forall_forall in Lrest_j, Fc. eapply rest_after_g; eauto. }
+        destruct (IH None (S j) k2 _ _ _ Hn2 Srest L2 I I E) as (J & b' & k' & Em & Hinc & Hlt & Es & Hk & Hb & Sl & Ll & Hor & Hw & HU).
+        exists (j :: J), b', k'.
+        assert (Eall : firstn (S i) f = f) by (rewrite El; apply firstn_all).
+        assert (Ef : rev (c :: rev (firstn i f)) = f) by (cbn [rev]; rewrite rev_involutive, <- EfS; exact Eall).
+        assert (Elast : List.last f dchunk = c) by (rewrite <- Eall, EfS; apply last_last).
+        assert (Hk2 : (k <= k2)%nat /\ (j < k2)%nat) by (unfold k2; destruct (Nat.eqb_spec j k); lia).
+        split.
+        { unfold msgs_of. cbn [map]. f_equal; [|exact Em]. rewrite (nth_error_nth M j [] Hf). unfold msgf. rewrite Elast.
+          cbn [rev] in *. rewrite Ef. reflexivity. }
+        split; [cbn [incr_from]; split; [exact Hbj|exact Hinc]|].
+        split; [constructor; [lia|exact Hlt]|]. split; [exact Es|].
+        split; [lia|]. split; [lia|]. split; [exact Sl|]. split; [exact Ll|].
+        split; [|split; [exact Hw|exact HU]].
+        unfold k2 in *. destruct (Nat.eqb_spec j k) as [->|Hne].
+        + destruct Hor as [->|Hor]; [right; lia|right; exact Hor].
+        + exact Hor.
+      - assert (HSi : (S i < length f)%nat) by lia.
+        assert (R1 : runinvg j k (Some (c :: rev (firstn i f), tsn_plus_one (tsn c), true)) rest).
+        { split; [reflexivity|]. split; [exact Hjk|]. exists f, (S i), c. split; [exact Hf|]. split; [lia|]. split.
+          - rewrite EfS, rev_app_distr. reflexivity.
+          - replace (S i - 1)%nat with i by lia. split; [exact Hc|]. split; [reflexivity|exact Fc]. }
+        destruct (IH _ j k _ _ _ Hnj Srest Lrest_j R1 HjU Heq) as (J & b' & k' & Em & Hinc & Hlt & Es & Hk & Hb & Sl & Ll & Hor & Hw & HU).
+        exists J, b', k'. split; [exact Em|]. split; [eapply incr_from_weaken; [exact Hbj|exact Hinc]|].
+        split; [exact Hlt|]. split; [exact Es|]. split; [exact Hk|]. split; [lia|]. auto. }
+    destruct Lc as (j & ic & A & Hbj & Hjw).
+    destruct (at_ok _ _ _ A) as (fj & Hfj & Hcj & K).
+    assert (Lall : Forall (labg b U) (c :: rest)) by exact Lr.
+    cbn [pop_loop] in H.
+    destruct run as [[[r e] ord]|].
+    + destruct R as (-> & Hbk & f & i & p & Hf & Hi & -> & Hp & -> & Fp). cbn [run_chunks].
+      destruct (Z.eqb_spec (tsn c) (tsn_plus_one (tsn p))) as [Et|Et]; cbn [negb] in H.
+      * pose proof (proj2 (proj2 (wfM b f Hf)) (i - 1)%nat p Hp) as Kp.
+        pose proof (plus_one_off_inv base N HN _ _ (ok_inw _ _ _ _ Kp) (ok_inw _ _ _ _ K) Et) as Eo.
+        fold (offc c) (offc p) in Eo. rewrite (ok_off _ _ _ _ Kp) in Eo.
+        destruct (nth_error f i) as [ci|] eqn:Eci; [|apply nth_error_None in Eci; lia].
+        pose proof (ok_off _ _ _ _ (proj2 (proj2 (wfM b f Hf)) i ci Eci)) as Eoi.
+        assert (Aci : at_ b i ci) by (exists f; auto).
+        destruct (at_inj _ _ _ _ _ _ A Aci ltac:(lia)) as (-> & -> & ->).
+        apply (Hin b f i _ (tsn_plus_one (tsn p)) (le_n b) Hbk HbU Hf Eci eq_refl); [exact H|now symmetry].
+      * injection H as <- <- <-. apply Zero; [exact Hn| |].
+        -- unfold retained. cbn [rev app]. rewrite rev_involutive.
+           destruct (frags_prefix b f i Hf) as [[Sp _] Hel].
+           apply sorted_app; [exact Sp|split; assumption|].
+           intros a x Ha Hx. destruct (Hel a Ha) as (ia & Hia & _ & Eoa).
+           pose proof (ok_off _ _ _ _ (proj2 (proj2 (wfM b f Hf)) (i - 1)%nat p Hp)) as Eop.
+           rewrite Forall_forall in Fp. pose proof (Fp x Hx). lia.
+        -- unfold retained. cbn [rev app]. rewrite rev_involutive. apply Forall_app. split; [now apply frags_prefix_g|exact Lall].
+    + cbn [run_chunks app].
+      rewrite (ok_un _ _ _ _ K), (ok_first _ _ _ _ K), (ok_sseq _ _ _ _ K) in H. cbn [negb andb] in H.
+      assert (Hret : exists J b' k', @nil message = msgs_of J /\ incr_from b J /\ Forall (fun j0 => (j0 < b')%nat /\ (j0 < k')%nat) J /\ ssn k = ssn k' /\
+        (k <= k')%nat /\ (b <= b')%nat /\ sorted (retained [] None (c :: rest)) /\ Forall (labg b' U) (retained [] None (c :: rest)) /\
+        (k' = k \/ (k' <= b')%nat) /\ Z.of_nat k' - Z.of_nat b' < 32768 /\ Z.of_nat k' <= U).
+      { apply Zero; [exact Hn| |]; unfold retained; cbn [rev app]; [split; assumption|exact Lall]. }
+      destruct ic as [|ic']; cbn [Nat.eqb negb] in H.
+      * destruct (uint16_gt (ssn j) (ssn k)) eqn:G.
+        -- injection H as <- <- <-. exact Hret.
+        -- assert (Hjk : (j <= k)%nat).
+           { destruct (le_lt_dec j k) as [E|E]; [exact E|]. exfalso.
+             apply (ssn_gt2 k j) in E; [congruence|]. destruct Hn as (A1 & A2 & A3). lia. }
+           apply (Hin j fj 0%nat [] (tsn c) Hbj Hjk Hjw Hfj Hcj eq_refl); [|reflexivity]. rewrite (ok_sseq _ _ _ _ K). exact H.
+      * injection H as <- <- <-. exact Hret.
+Qed.
+
+(* ---- pruning a sorted queue *)
+Lemma prune_sorted cum : inw base N cum -> forall Q, sorted Q -> Forall (fun x => inw base N (tsn x)) Q ->
+  sorted (fst (prune_chunks Q cum)) /\ incl (fst (prune_chunks Q cum)) Q /\
+  Forall (fun x => off base cum < offc x) (fst (prune_chunks Q cum)).
+Proof.
+  intros Hc. induction Q as [|c Q IH]; intros S I; cbn [prune_chunks]; [cbn; auto using incl_refl|].
+  destruct S as [F S]. inversion I as [|? ? Ic IQ]; subst.
+  destruct (uint32_gte cum (tsn c)) eqn:G.
+  - rewrite (surjective_pairing (prune_chunks Q cum)). cbn [fst]. destruct (IH S IQ) as (A1 & A2 & A3).
+    split; [exact A1|]. split; [intros x Hx; right; now apply A2|exact A3].
+  - cbn [fst]. split; [split; assumption|]. split; [apply incl_refl|].
+    assert (Hlt : off base cum < offc c).
+    { destruct (Z_lt_le_dec (off base cum) (offc c)) as [H|H]; [exact H|].
+      apply (gte_off base N Hbase HN _ _ Hc Ic) in H. congruence. }
+    constructor; [exact Hlt|]. eapply Forall_impl; [|exact F]. intros x Hx. cbv beta in *. lia.
+Qed.
+
+Lemma qinv_labg k Q : qinv k Q -> sorted Q /\ Forall (labg k (Z.of_nat k + 32768)) Q.
+Proof.
+  intros [S L]. split; [exact S|]. eapply Forall_impl; [|exact L]. intros c (j & i & A & W). unfold inwin in W.
+  exists j, i. split; [exact A|]. split; lia.
+Qed.
+
+Lemma labg_qinv b U k Q : sorted Q -> Forall (labg b U) Q -> (k <= b)%nat -> U <= Z.of_nat k + 32768 -> qinv k Q.
+Proof.
+  intros S L Hb HU. split; [exact S|]. eapply Forall_impl; [|exact L]. intros c (j & i & A & H1 & H2).
+  exists j, i. split; [exact A|]. unfold inwin. lia.
+Qed.
+
+Lemma incr_from_app b m J1 J2 : incr_from b J1 -> Forall (fun j => (j < m)%nat) J1 -> (b <= m)%nat -> incr_from m J2 -> incr_from b (J1 ++ J2).
+Proof.
+  revert b. induction J1 as [|j J1 IH]; intros b H1 HF Hbm H2; cbn [app].
+  - eapply incr_from_weaken; eauto.
+  - cbn [incr_from] in *. destruct H1 as [Hb H1]. inversion HF; subst. split; [exact Hb|]. apply IH; auto; lia.
+Qed.
+
+Lemma msgs_of_app J1 J2 : msgs_of (J1 ++ J2) = msgs_of J1 ++ msgs_of J2.
+Proof. unfold msgs_of. apply map_app. Qed.
+
+(* one pop on a queue without stale messages *)
+Lemma pop_at k Q l s ms : qinv k Q -> pop_messages Q (ssn k) = (l, s, ms) ->
+  exists J k', ms = msgs_of J /\ incr_from k J /\ Forall (fun j => (j < k')%nat) J /\ s = ssn k' /\ (k <= k')%nat /\
+               Z.of_nat k' <= Z.of_nat k + 32768 /\ qinv k' l.
+Proof.
+  intros Q0 H. destruct (qinv_labg k Q Q0) as [SQ L]. unfold pop_messages in H.
+  assert (Hn : near k k (Z.of_nat k + 32768)) by (split; [lia|split; lia]).
+  destruct (pop_gen _ Q None k k l s ms Hn SQ L I I H) as (J & b' & k' & Em & Hinc & Hlt & Es & Hk & Hb & Sl & Ll & Hor & Hw & HU).
+  exists J, k'. split; [exact Em|]. split; [exact Hinc|]. split; [eapply Forall_impl; [|exact Hlt]; intros j [_ H2]; exact H2|].
+  split; [exact Es|]. split; [exact Hk|]. split; [exact HU|].
+  apply (labg_qinv b' (Z.of_nat k + 32768)); [exact Sl|exact Ll| |lia]. destruct Hor as [->|Hor]; lia.
+Qed.
+
+(* ---- FORWARD-TSN naming this stream (one entry, as the sender's dict produces) *)
+Definition sfwd (Q : list chunk) (seq cum sq : Z) : list chunk * Z * list message :=
+  let seq1 := if uint16_gte sq seq then uint16_add sq 1 else seq in
+  let '(Q1, seq2, ms1) := pop_messages Q seq1 in
+  let Q2 := fst (prune_chunks Q1 cum) in
+  let '(Q3, seq3, ms2) := pop_messages Q2 seq2 in
+  (Q3, seq3, ms1 ++ ms2).
+
+(* what the sender guarantees about a FORWARD-TSN (cum, (stream, sq)): sq is the sequence number of a
+   message j near the delivery point, and every chunk of every message up to j lies at or below cum *)
+Definition fwd_ok (k : nat) (cum sq : Z) : Prop :=
+  inw base N cum /\ exists j, sq = ssn j /\ - 32768 < Z.of_nat j - Z.of_nat k < 32767 /\
+    forall j' i' c', at_ j' i' c' -> (j' <= j)%nat -> offc c' <= off base cum.
+
+Lemma sfwd_ok k Q cum sq Q3 s3 ms : qinv k Q -> fwd_ok k cum sq -> sfwd Q (ssn k) cum sq = (Q3, s3, ms) ->
+  exists J k', ms = msgs_of J /\ incr_from k J /\ Forall (fun j => (j < k')%nat) J /\ s3 = ssn k' /\ (k <= k')%nat /\
+               Z.of_nat k' <= Z.of_nat k + 32768 /\ qinv k' Q3.
+Proof.
+  intros Q0 (Hc & j & -> & Hj & Hdis) H. unfold sfwd in H.
+  set (U := Z.of_nat k + 32768).
+  set (k1 := if le_lt_dec k j then S j else k).
+  assert (E1 : (if uint16_gte (ssn j) (ssn k) then uint16_add (ssn j) 1 else ssn k) = ssn k1).
+  { unfold k1, uint16_gte. destruct (le_lt_dec k j) as [Hle|Hlt].
+    - destruct (Nat.eq_dec j k) as [->|Hne]; [rewrite Z.eqb_refl; cbn [orb]; apply ssn_succ|].
+      assert (G : uint16_gt (ssn j) (ssn k) = true) by (apply ssn_gt2; lia). rewrite G, orb_true_r. apply ssn_succ.
+    - assert (G : uint16_gt (ssn j) (ssn k) = false).
+      { destruct (uint16_gt (ssn j) (ssn k)) eqn:G; [|reflexivity]. apply ssn_gt2 in G; lia. }
+      assert (E : (ssn j =? ssn k) = false).
+      { destruct (ssn j =? ssn k) eqn:E; [|reflexivity]. apply ssn_eq2 in E; lia. }
+      rewrite G, E. reflexivity. }
+  rewrite E1 in H.
+  destruct (qinv_labg k Q Q0) as [SQ L]. fold U in L.
+  assert (Hk1 : (k <= k1)%nat /\ Z.of_nat k1 <= U) by (unfold k1, U; destruct (le_lt_dec k j); lia).
+  assert (Hn1 : near k k1 U) by (unfold near, U in *; destruct Hk1; split; [lia|split; [unfold k1; destruct (le_lt_dec k j); lia|lia]]).
+  destruct (pop_messages Q (ssn k1)) as [[Q1 seq2] ms1] eqn:Ep1. unfold pop_messages in Ep1.
+  destruct (pop_gen U Q None k k1 Q1 seq2 ms1 Hn1 SQ L I I Ep1) as (J1 & b1 & k2 & Em1 & Hinc1 & Hlt1 & -> & Hk2 & Hb1 & S1 & L1 & Hor1 & Hw1 & HU1).
+  assert (I1 : Forall (fun x => inw base N (tsn x)) Q1).
+  { eapply Forall_impl; [|exact L1]. intros x (jx & ix & A & _). destruct (at_ok _ _ _ A) as (f & _ & _ & K). exact (ok_inw _ _ _ _ K). }
+  destruct (prune_sorted cum Hc Q1 S1 I1) as (S2 & Inc2 & Gt2).
+  set (Q2 := fst (prune_chunks Q1 cum)) in *.
+  assert (L2 : Forall (labg k2 U) Q2).
+  { apply Forall_forall. intros x Hx. rewrite Forall_forall in L1, Gt2.
+    destruct (L1 x (Inc2 x Hx)) as (jx & ix & A & Hb & HUx). exists jx, ix. split; [exact A|]. split; [|exact HUx].
+    destruct Hor1 as [->|Hor1]; [|lia].
+    unfold k1. destruct (le_lt_dec k j) as [Hle|Hlt]; [|lia].
+    destruct (le_lt_dec (S j) jx) as [Hok|Hbad]; [lia|]. exfalso.
+    pose proof (Hdis jx ix x A ltac:(lia)). pose proof (Gt2 x Hx). lia. }
+  destruct (pop_messages Q2 (ssn k2)) as [[Q3' seq3] ms2] eqn:Ep2. injection H as <- <- <-. unfold pop_messages in Ep2.
+  assert (Hn2 : near k2 k2 U) by (unfold near, U in *; destruct Hk1; split; [lia|split; lia]).
+  destruct (pop_gen U Q2 None k2 k2 Q3' seq3 ms2 Hn2 S2 L2 I I Ep2) as (J2 & b3 & k3 & Em2 & Hinc2 & Hlt2 & -> & Hk3 & Hb3 & S3 & L3 & Hor3 & Hw3 & HU3).
+  exists (J1 ++ J2), k3. split; [now rewrite msgs_of_app, Em1, Em2|]. split.
+  { apply (incr_from_app k k2); [exact Hinc1| |lia|exact Hinc2].
+    eapply Forall_impl; [|exact Hlt1]. intros x [_ H2]. exact H2. }
+  split.
+  { apply Forall_app. split.
+    - eapply Forall_impl; [|exact Hlt1]. intros x [_ H2]. lia.
+    - eapply Forall_impl; [|exact Hlt2]. intros x [_ H2]. exact H2. }
+  split; [reflexivity|]. split; [lia|]. split; [exact HU3|].
+  apply (labg_qinv b3 U); [exact S3|exact L3| |unfold U; lia]. destruct Hor3 as [->|Hor3]; lia.
+Qed.
+
+(* ---- events on one ordered stream *)
+Inductive sev := SData (c : chunk) | SFwd (cum sq : Z).
+
+Definition sapply (Q : list chunk) (seq : Z) (ev : sev) : option (list chunk * Z * list message) :=
+  match ev with
+  | SData c => match add_chunk Q c with AddOk Q1 => Some (pop_messages Q1 seq) | AddAssert => None end
+  | SFwd cum sq => Some (sfwd Q seq cum sq)
+  end.
+
+Definition admissible (k : nat) (Q : list chunk) (ev : sev) : Prop :=
+  match ev with
+  | SData c => labelled k c /\ forall x, In x Q -> offc x <> offc c
+  | SFwd cum sq => fwd_ok k cum sq
+  end.
+
+Theorem sstep_ok k Q ev : qinv k Q -> admissible k Q ev ->
+  exists Q' k' J, sapply Q (ssn k) ev = Some (Q', ssn k', msgs_of J) /\ (k <= k')%nat /\
+    Z.of_nat k' <= Z.of_nat k + 32768 /\ incr_from k J /\ Forall (fun j => (j < k')%nat) J /\ qinv k' Q'.
+Proof.
+  intros Q0 Ha. destruct ev as [c|cum sq]; cbn [sapply admissible] in *.
+  - destruct Ha as [Lc Hne]. destruct Q0 as [SQ LQ].
+    assert (IQ : Forall (fun x => inw base N (tsn x)) Q) by (eapply Forall_impl; [|exact LQ]; intros x; apply labelled_inw).
+    destruct (add_chunk_sorted base N Hbase HN c Q SQ IQ (labelled_inw k c Lc) Hne) as (Q1 & E1 & S1 & In1). rewrite E1.
+    assert (Q1i : qinv k Q1).
+    { split; [exact S1|]. apply Forall_forall. intros x Hx. apply In1 in Hx as [->|Hx]; [exact Lc|].
+      rewrite Forall_forall in LQ. now apply LQ. }
+    destruct (pop_messages Q1 (ssn k)) as [[Q2 s2] ms] eqn:Ep.
+    destruct (pop_at k Q1 Q2 s2 ms Q1i Ep) as (J & k' & -> & Hinc & Hlt & -> & Hk & HU & Q2i).
+    exists Q2, k', J. auto 10.
+  - destruct (sfwd Q (ssn k) cum sq) as [[Q3 s3] ms] eqn:Ef.
+    destruct (sfwd_ok k Q cum sq Q3 s3 ms Q0 Ha Ef) as (J & k' & -> & Hinc & Hlt & -> & Hk & HU & Q3i).
+    exists Q3, k', J. auto 10.
+Qed.
+
+(* the delivery point after a step, recovered from the stream's counter *)
+Definition knext (k : nat) (s' : Z) : nat := (k + Z.to_nat ((s' - ssn k) mod 65536))%nat.
+Lemma knext_ssn k k' : (k <= k')%nat -> Z.of_nat k' <= Z.of_nat k + 32768 -> knext k (ssn k') = k'.
+Proof. unfold knext, ssn. intros H1 H2. apply Nat2Z.inj. rewrite Nat2Z.inj_add, Z2Nat.id by lia. lia. Qed.
+
+Fixpoint srunF (Q : list chunk) (seq : Z) (evs : list sev) : option (list message) :=
+  match evs with
+  | [] => Some []
+  | ev :: evs' =>
+      match sapply Q seq ev with
+      | Some (Q', s', ms) => match srunF Q' s' evs' with Some out => Some (ms ++ out) | None => None end
+      | None => None
+      end
+  end.
+
+(* every event is admissible at the delivery point it meets *)
+Fixpoint sokF (k : nat) (Q : list chunk) (evs : list sev) : Prop :=
+  match evs with
+  | [] => True
+  | ev :: evs' =>
+      admissible k Q ev /\
+      match sapply Q (ssn k) ev with Some (Q', s', _) => sokF (knext k s') Q' evs' | None => True end
+  end.
+
+(* IN ORDER, WITH FORWARD-TSN.  On an ordered stream, for every list of admissible events -- chunks of
+   messages at or beyond the delivery point, and FORWARD-TSN chunks as the sender builds them -- the
+   delivered messages are the messages of a strictly increasing list of message indices: they come
+   out in sending order and none comes out twice (some are skipped: that is partial reliability). *)
+Theorem fwd_ordered : forall evs k Q, qinv k Q -> sokF k Q evs ->
+  exists J, srunF Q (ssn k) evs = Some (msgs_of J) /\ incr_from k J.
+Proof.
+  induction evs as [|ev evs IH]; intros k Q Q0 Hok; cbn [srunF].
+  - exists []. split; [reflexivity|exact I].
+  - cbn [sokF] in Hok. destruct Hok as [Ha Hrest].
+    destruct (sstep_ok k Q ev Q0 Ha) as (Q' & k' & J & E & Hk & HU & Hinc & Hlt & Q'i). rewrite E in *.
+    rewrite (knext_ssn k k' Hk HU) in Hrest.
+    destruct (IH k' Q' Q'i Hrest) as (J2 & E2 & Hinc2). rewrite E2.
+    exists (J ++ J2). split; [now rewrite msgs_of_app|]. apply (incr_from_app k k'); auto.
+Qed.
 End Ordered.
